@@ -358,7 +358,7 @@ func (r *runner) afterStep() {
 			r.addV(checkIDsAtCommit(r, rec, before)...)
 		}
 		if r.has("accounts") {
-			r.addV(checkAccountsAtCommit(r.sc.Property, rec)...)
+			r.addV(checkAccountsAtCommit(r.sc.Property, rec, r.w.fired[FClockJump] > 0)...)
 		}
 		if r.has("isolation") {
 			r.addV(checkIsolationAtCommit(r, rec)...)
@@ -687,6 +687,9 @@ func (r *runner) finalChecks() {
 		r.addV(checkWritesRacingImport(r)...)
 	}
 	if r.has("current-metadata") {
+		r.addV(checkMetadataWritesSurvive(r, views)...)
+	}
+	if r.has("current-metadata") {
 		r.addV(checkCurrentMetadata(r, views)...)
 	}
 	if r.has("feature-equivalence") {
@@ -704,6 +707,9 @@ func (r *runner) finalChecks() {
 	}
 	if r.has("import-reference") {
 		r.addV(checkImportReference(r)...)
+	}
+	if r.has("conservation-reads") {
+		r.addV(checkConservationReads(r)...)
 	}
 	if r.has("pit-reads") {
 		r.addV(checkPITReads(r)...)
